@@ -91,4 +91,5 @@ def util_buffers(ctx):
     c13.r13_3(ctx, vimp)
     c13.r13_6(ctx, vimp)
     c13.r13_7(ctx, vimp)
+    c13.r13_8(ctx, vimp)
     c13.r13_5(ctx, oimp)
